@@ -165,7 +165,8 @@ TEMPLATES = {
            "    where (arr > 0) arr = 1", "    where (arr > 0) arr(:) = 1", "    where (arr > 0)\n      arr = 0\n    elsewhere\n    end where", "    forall (i = 1:3) arr(i) = i", "    forall (i = 1:3)\n      arr(i) = 1\n    end forall",
            "    block\n      integer :: bv\n      bv = 1\n    end block", "    critical\n    end critical", "    call o%pb()", "    call host(a=1, b=y)", "    y = o%c + f(a, b) * arr(1)",
            "    print *, 'it''s', \"q\" // 'x' ! c", "    write (*, '(a)') 's'", "    allocate(q, source=o)", "    open(unit=1, file='f')", "    y = merge(a, b, a > b)", "    10 format (i5)",
-           "    call host(a, &\n      b)", "    return", "    stop 1", "    y = a; i = b", "    blocks(1) = 0", "    selector = 1", "    type = 2", "    o % c = arr ( 1 )", "    y = ntrue", "    print *, \"hi!\", y"],
+           "    call host(a, &\n      b)", "    return", "    stop 1", "    y = a; i = b", "    blocks(1) = 0", "    selector = 1", "    type = 2", "    o % c = arr ( 1 )", "    y = ntrue", "    print *, \"hi!\", y",
+           "    y = a + &\n    ! a comment between\n\n      b\n    i = 1", "    call host(a, &\n#ifdef A\n#endif\n      b)\n    i = 2"],
     "TOP": ["program p\n  use tm\n  implicit none\n  call host(1, 2)\nend program p", "submodule (tm) sm\ncontains\n  module procedure impl\n  end procedure impl\nend submodule sm",
             "function f(x) result(r)\n  integer :: x, r\n  r = x\nend function f", "integer function g(x)\n  integer x\n  g = x\nend function", "recursive pure subroutine rs(x)\n  integer, intent(in) :: x\nend subroutine",
             "block data bd\nend block data", "subroutine s2()\n  include 'inc.f90'\nend subroutine s2", "module m2\n  use tm, only: tt, h => host\nend module m2"],
